@@ -15,7 +15,7 @@ from .. import tlc
 
 TRACE_MODULE = "linalg/Trace_Subspace.tla"
 TOL = 1e-8
-OPS = ["project", "chord", "lrsv", "pcm", "peig", "leig", "smw", "gmd", "whiten", "conv"]
+OPS = ["project", "chord", "chordx", "lrsv", "pcm", "peig", "leig", "smw", "gmd", "whiten", "conv"]
 
 
 def rnd(rs, r, c, real):
@@ -68,7 +68,7 @@ def record_event(rs, op):
     I = np.eye
     if op == "project":
         c = d["cols"] = int(rs.randint(1, r + 1))
-        d["mc"] = mc = int(rs.randint(1, 4))
+        d["mc"] = mc = int(rs.randint(1, r + 3))        # narrower, equal and WIDER than the basis / the space
         A, M = rnd(rs, r, c, real), rnd(rs, r, mc, real)
         ev["out"], P = outcome(Projection, A)
         if P is not None:
@@ -94,6 +94,29 @@ def record_event(rs, op):
                            "BasisInvariant": all(abs(sq(float(f(A @ T, B))) - sq(ds[0])) <= TOL for f in (f1, f2, f3)),
                            "UnitaryInvariant": all(abs(sq(float(f(U @ A, U @ B))) - sq(ds[0])) <= TOL for f in (f1, f2, f3)),
                            "AnglesGiveDistance": abs(float(np.sum(np.sin(ang) ** 2)) - sq(ds[0])) <= TOL}
+    elif op == "chordx":
+        # subspaces of DIFFERENT dimension: d["cols"] = n1, d["n"] = n2; the projector-based routines are defined
+        r = d["rows"] = int(rs.randint(2, 9))
+        c = d["cols"] = int(rs.randint(1, r + 1))
+        n2 = d["n"] = int(rs.choice([x for x in range(1, r + 1) if x != c]))
+        A, B, U = rnd(rs, r, c, real), rnd(rs, r, n2, real), unitary(rs, r, real)
+        T1, T2 = rnd(rs, c, c, real), rnd(rs, n2, n2, real)
+        f1, f2 = mt.calc_chordal_distance, mt.calc_chordal_distance_2
+        ev["out"], ang = outcome(mt.calc_principal_angles, A, B)
+        if ang is not None:
+            sq = lambda x: float(x) ** 2  # noqa
+            ref = sq(f2(A, B))
+            PA, PB = projector(A), projector(B)
+            big, small = (A, B) if c > n2 else (B, A)
+            inside = big[:, :small.shape[1]] @ rnd(rs, small.shape[1], small.shape[1], real)
+            ev["shape"] = {"angles": sh(ang)}
+            ev["preds"] = {"TwoRoutinesAgree": abs(sq(f1(A, B)) - ref) <= TOL and abs(ref - float(np.linalg.norm(PA - PB, 'fro') ** 2) / 2) <= TOL,
+                           "Symmetric": all(abs(sq(f(B, A)) - sq(f(A, B))) <= TOL for f in (f1, f2)),
+                           "BasisInvariant": all(abs(sq(f(A @ T1, B @ T2)) - ref) <= TOL for f in (f1, f2)),
+                           "UnitaryInvariant": all(abs(sq(f(U @ A, U @ B)) - ref) <= TOL for f in (f1, f2)),
+                           "NestedGivesHalfDimDiff": all(abs(sq(f(x, y)) - abs(c - n2) / 2) <= TOL for f in (f1, f2)
+                                                         for x, y in ((big, inside), (inside, big))),
+                           "AnglesSumCos2IsTrace": abs(float(np.sum(np.cos(ang) ** 2)) - float(np.real(np.trace(PA @ PB)))) <= TOL}
     elif op == "lrsv":
         n = d["n"] = int(rs.randint(0, c + 1))
         A = rnd(rs, r, c, real)
